@@ -129,6 +129,14 @@ def gen_case(rng, forced=None):
         if rng.random() < 0.25:
             case['nonbond'].append([a, b, round(rng.uniform(0.1, 0.6), 4), round(rng.uniform(0.5, 5), 4)])
     case['atypes'] = {t: [round(rng.uniform(0.2, 0.6), 4), round(rng.uniform(0.5, 5), 4)] for t in types}
+    if rng.random() < 0.3:
+        # C6 / C12 tables as united-atom force fields write them for small ions: very small but positive coefficients
+        t = rng.choice(types)
+        case['atypes'][t] = [float(f'{rng.uniform(1e-4, 9e-3):.6e}'), float(f'{rng.uniform(1e-9, 9.5e-9):.6e}')]
+        if rng.random() < 0.5:
+            u = rng.choice(types)
+            case['nonbond'] = [x for x in case['nonbond'] if sorted(x[:2]) != sorted([t, u])]
+            case['nonbond'].append([t, u, float(f'{rng.uniform(1e-4, 9e-3):.6e}'), float(f'{rng.uniform(1e-9, 9.5e-9):.6e}')])
     case['mol_lines'] = split_molecule_lines(rng, case['n_inst'])
     return case
 
@@ -380,15 +388,23 @@ def judge_pairs(case, out):
         bad.append(f"pair table keys {sorted(table)} != expected {sorted(exp)}")
         return bad
     for k, v in exp.items():
-        if not core.close(list(table[k]), list(v), 1e-9, 1e-12):
+        if not core.close(list(table[k]), list(v), 1e-9, 1e-15):
             bad.append(f"pair {k}: {table[k]} expected {v}")
             break
     # sigma/epsilon reproduce C6/C12
     if case['comb'] == 1:
         for a, b, x, y in case['nonbond']:
             sig, eps = table[tuple(sorted((a, b)))]
-            if abs(4 * eps * sig ** 6 - x) > 1e-9 * (1 + abs(x)) or abs(4 * eps * sig ** 12 - y) > 1e-9 * (1 + abs(y)):
+            if abs(4 * eps * sig ** 6 - x) > 1e-7 * abs(x) + 1e-30 or abs(4 * eps * sig ** 12 - y) > 1e-7 * abs(y) + 1e-30:
                 bad.append(f"pair {a}-{b}: sigma {sig} epsilon {eps} do not reproduce C6 {x} C12 {y}")
+        for t in case['types']:
+            if any(sorted(r[:2]) == [t, t] for r in case['nonbond']):
+                continue
+            x, y = case['atypes'][t]
+            sig, eps = table[(t, t)]
+            if abs(4 * eps * sig ** 6 - x) > 1e-7 * abs(x) + 1e-30 or abs(4 * eps * sig ** 12 - y) > 1e-7 * abs(y) + 1e-30:
+                bad.append(f"self term of {t}: sigma {sig} epsilon {eps} do not reproduce C6 {x} C12 {y} of [ atomtypes ]")
+                break
     return bad
 
 
